@@ -806,3 +806,41 @@ def out_argument_on_a_column_view():
     a = np.array([[1.0, 3.0], [2.0, 7.0]])
     np.subtract(a[:, 1], a[:, 0], out=a[:, 1])
     return a
+
+
+# ---------------------------------------------------------------- decorators defined in the package are applied
+import functools as _ft
+
+
+def _scaled_by(factor):
+    def deco(func):
+        @_ft.wraps(func)
+        def wrapper(x, offset=0.0):
+            return factor * func(x, offset=offset)
+        return wrapper
+    return deco
+
+
+def _forgets_offset(func):
+    @_ft.wraps(func)
+    def wrapper(x, offset=0.0):
+        return func(x)
+    return wrapper
+
+
+@_scaled_by(2.0)
+def _shifted_sum(x, offset=0.0):
+    return sum(x) + offset
+
+
+@_forgets_offset
+def _shifted_sum_lost(x, offset=0.0):
+    return sum(x) + offset
+
+
+def decorator_factory_is_applied():
+    return _shifted_sum([1.0, 2.0, 3.0], offset=0.5)
+
+
+def decorator_that_drops_an_argument():
+    return _shifted_sum_lost([1.0, 2.0, 3.0], offset=0.5)
